@@ -2,7 +2,8 @@
 //   - verifPreLock("<func>") before every statement  x.Lock() / x.RLock()
 //   - verifHeld(1) after it, verifHeld(-1) before every x.Unlock() / x.RUnlock()
 //     (also inside `defer x.Unlock()`)
-//   - verifPreLock("<func>:unlocked") after every statement x.Unlock() / x.RUnlock()
+//   - verifPreLock("<func>:unlocked") after every statement x.Unlock() / x.RUnlock(), and after the
+//     unlock inside `defer x.Unlock()` (i.e. when the function returns)
 //   - verifPreLock("@L:<lock>") / ("@R:<lock>") before every Lock/RLock and verifPreLock("@U:<lock>")
 //     before every unlock, where <lock> names the mutex by the struct type that owns it
 //     (e.g. kvElection.mu): record-only calls from which the simulator builds the order in which
@@ -138,7 +139,9 @@ func (r *rewriter) stmts(list []ast.Stmt) []ast.Stmt {
 				r.sites++
 				fl := &ast.FuncLit{Type: &ast.FuncType{Params: &ast.FieldList{}}, Body: &ast.BlockStmt{List: []ast.Stmt{
 					call("verifPreLock", lit("@U:"+r.lockName(c))),
-					call("verifHeld", &ast.UnaryExpr{Op: token.SUB, X: num("1")}), &ast.ExprStmt{X: c}}}}
+					call("verifHeld", &ast.UnaryExpr{Op: token.SUB, X: num("1")}), &ast.ExprStmt{X: c},
+					// the function is about to return to its caller with the lock released
+					call("verifPreLock", lit(r.fn+":unlocked"))}}}
 				out = append(out, &ast.DeferStmt{Call: &ast.CallExpr{Fun: fl}})
 				continue
 			}
